@@ -40,6 +40,9 @@ MAX_DEPTH = 40      # call-inlining depth
 MAX_REC = 4         # same instance on the stack
 
 
+PURE_DEFS = ("rem", "and", "div", "shr", "shl_trunc", "trunc", "wrap", "le_byte", "swap_bytes")
+
+
 class Unsupported(Exception):
     pass
 
@@ -131,6 +134,8 @@ class Interp:
         self.on_call_result = [] # hooks(interp, frame, bb, term, callee, args, outcomes)
         self.on_assign = []      # hooks(interp, frame, bb, stmt, st, val)
         self.on_return = []      # hooks(interp, frame, st, val)
+        self.def_cache = {}
+        self.on_block = []       # hooks(interp, frame, bb, st): at the start of every basic block
         self.join_exits = join_exits or (lambda body: False)
         self.stack = []          # def names of active frames
         self.istack = []         # instance keys of active frames
@@ -220,7 +225,21 @@ class Interp:
             l = max(l, lo)
         if hi is not None:
             h = min(h, hi)
+        # pure operations of immutable symbols: the same definition denotes the same value (hash-consing)
+        key = None
+        if defn is not None and defn[0] in PURE_DEFS:
+            try:
+                key = (defn, w, sg, l, h)
+                hash(key)
+            except TypeError:
+                key = None
+            if key is not None:
+                s = self.def_cache.get(key)
+                if s is not None:
+                    return VInt(Lin.sym(s), w, sg)
         s = st.fresh(l, h, origin, defn)
+        if key is not None:
+            self.def_cache[key] = s
         return VInt(Lin.sym(s), w, sg)
 
     def adt_fields(self, ty, variant):
@@ -943,6 +962,8 @@ class Interp:
         body = frame.body
         blk = body["blocks"][bb]
         self.stats["steps"] += 1 + len(blk["stmts"])
+        for h in self.on_block:
+            h(self, frame, bb, st)
         rk = "L"
         for stmt in blk["stmts"]:
             if stmt["k"] == "assign":
